@@ -31,7 +31,7 @@ fn judge(p: &Params, out: &Out, r: &RefOut, js: &mut Judgements) -> usize {
 }
 
 fn regimes() -> Vec<Regime> {
-    vec![Regime::Walk, Regime::AltExtremes, Regime::Spikes, Regime::Plateau, Regime::Saw(7), Regime::Saw(100), Regime::Saw(997), Regime::Saw(1000), Regime::Saw(1024), Regime::AltExact, Regime::QuietSpikes, Regime::BadTicks, Regime::Ticks, Regime::Integer, Regime::UlpNoise]
+    vec![Regime::Walk, Regime::AltExtremes, Regime::Spikes, Regime::Plateau, Regime::Saw(7), Regime::Saw(100), Regime::Saw(997), Regime::Saw(1000), Regime::Saw(1024), Regime::AltExact, Regime::QuietSpikes, Regime::BadTicks, Regime::Ticks, Regime::Integer, Regime::UlpNoise, Regime::Quiet]
 }
 
 fn bar_around(c: f64, rng: &mut Rng) -> Bar {
